@@ -111,4 +111,20 @@ theorem mergeWithProto_adds_gen (fuel : Nat) (ord : MapOrder) (hl : ord.Lawful) 
   obtain ⟨st', a1, a2, a3, a4⟩ := mergeWithProto_good_store fuel ord st hg E hE hcE pb hfin hok
   exact ⟨st', _, a1, a2, a3, a4, fun j => lookup_merge_msgBins E ord hl pb hwf j⟩
 
+/-- **sparse → regenerated dense, through `FromProto`**: the message of the regenerated sparse `ToProto`, as floats,
+    rebuilt by the regenerated `FromProto` (instance running the regenerated dense `AddWithCount`, e.g.
+    `GenDecodeWrap.denseI`): the image of a good plain dense model store holding `c` -/
+theorem sparse_to_dense_fromProto {g : Gen.Sparse.SparseStore} {c : Content} (h : GenSparse.Rep g c)
+    (h32 : ∀ p ∈ c, Lift.I32 p.1) (o1 o2 : MapOrder) (h1 : o1.Lawful) (h2 : o2.Lawful)
+    (I : StoreI GenDense.GS) (hI : GenDecodeWrap.DenseAdds I) (fuel fuel2 : Nat) :
+    ∃ m d, Gen.SparseProto.SparseStore.ToProto fuel o1 g = .ok m ∧
+      @Gen.DenseFromProto.FromProto I fuel2 o2 (toF64 m) = .ok (GenDense.toGen d) ∧
+      Lift.Good (.d d) ∧ Lift.contentOf (.d d) = c := by
+  obtain ⟨m, e1, _, st', e3, e4, _, e6⟩ := sparse_roundtrip h h32 o1 o2 h1 h2 .dense trivial fuel fuel2
+  obtain ⟨d, d1, _, d3⟩ := dense_fromProto_sim I hI fuel2 o2 (toF64 m)
+  rw [d3] at e3
+  cases e3
+  exact ⟨m, d, e1, d1, e4, e6⟩
+
 end DDS.Props.C09GenStore
+
